@@ -156,7 +156,7 @@ GlobalKey(kind, name, il, ih) ==
 VARIABLES idlen, idhash, group, verdict
 vars == <<idlen, idhash, group, verdict>>
 
-Groups == {"globals", "indexed", "hashfun"}
+Groups == {"globals", "indexed", "namekeyed", "hashfun"}
 
 Printable(n) == \A i \in 1..Len(n) : Width(n[i]) > 0
 (* 1. globals: two (kind, name) collide exactly when their keys are equal                    *)
@@ -201,6 +201,22 @@ IndexedDisjoint(il) ==
 IndexedVsGlobals(il, ih) ==
   (UNION {IdxImages(e, il) : e \in IdxSet}) \cap {GM(e, il, ih) : e \in GlobalSet} = {}
 
+(* 2b. name-keyed entities.  gc0ClosInit spells the static closure of a global that is initialised  *)
+(* with a closure `tmpClos' 0 '_' <name>: the index is the constant 0, so the NAME is what tells two  *)
+(* such entities apart; likewise the initialisation function of a unit is INIT_ <part> '_' <unit>.   *)
+(* There is no hash in these names: two of them collide exactly when index and truncated image agree *)
+NameKeyedKinds == {<<"t", "m", "p", "C", "l", "o", "s">>, <<"I", "N", "I", "T", "_">>}
+NKSet == {<<k, i, n>> : k \in NameKeyedKinds, i \in {0, 1}, n \in NamesUpTo(MaxIdxLen + 1)}
+NKM(e, il) == MangleH(e[1], e[2], e[3], il, TRUE, 0)
+NKKey(e, il) ==
+  LET pre == Len(Valid(<<>>, e[1], il)) + Len(PutI(e[2])) + 1
+  IN <<e[1], e[2], e[3] = <<>>, TruncImg(e[3], il - pre, il = 0)>>
+NKExact(il) ==
+  LET pairs == {<<NKM(e, il), NKKey(e, il)>> : e \in NKSet}
+  IN Cardinality(pairs) = Cardinality({p[1] : p \in pairs}) /\ Cardinality(pairs) = Cardinality({p[2] : p \in pairs})
+NKSetP == {e \in NKSet : Printable(e[3])}
+NKCollisionsP(il) == Cardinality(NKSetP) - Cardinality({NKM(e, il) : e \in NKSetP})
+
 (* 3. the mangling of a whole name is injective on printable names when nothing is cut *)
 ImgInjective == LET P == {n \in Names : Printable(n)}
                 IN Cardinality({Valid(<<>>, n, 0) : n \in P}) = Cardinality(P)
@@ -228,6 +244,7 @@ Eval == /\ group # "none" /\ verdict = <<"todo">>
              CASE group = "globals" -> <<GlobalCollisions(idlen, idhash), GlobalWitness(idlen, idhash),
                                          GlobalCollisionsP(idlen, idhash), GlobalsExact(idlen, idhash)>>
                [] group = "indexed" -> <<IndexedDisjoint(idlen), IndexedVsGlobals(idlen, TRUE)>>
+               [] group = "namekeyed" -> <<NKExact(idlen), NKCollisionsP(idlen)>>
                [] OTHER -> <<ImgInjective, HashVectors, HashStepInjective, \A il \in IdLens : LimitRespected(il)>>
         /\ UNCHANGED <<idlen, idhash, group>>
 Done == group # "none" /\ verdict # <<"todo">>
@@ -247,6 +264,11 @@ IndexedDistinct == (group = "indexed" /\ Done /\ (idlen = 0 \/ idlen >= MinIdLen
 (* below MinIdLen the kind string itself is cut ("tmp" / "tmpClos"): TLC shows it with       *)
 (* CNamesShort.cfg (IndexedDistinctAll); such limits are outside C16 (below the default)      *)
 IndexedDistinctAll == (group = "indexed" /\ Done) => verdict[1] /\ verdict[2]
+(* name-keyed entities: exact condition; and the statement of C16 for them, which does NOT hold of    *)
+(* the code as written once the limit cuts the name (CNamesDistinctNK.cfg shows the counterexample)   *)
+NameKeyedExact == (group = "namekeyed" /\ Done /\ (idlen = 0 \/ idlen >= MinIdLen)) => verdict[1]
+NameKeyedDistinct == (group = "namekeyed" /\ Done /\ (idlen = 0 \/ idlen >= 12)) => verdict[2] = 0
+NameKeyedDistinctUnlimited == (group = "namekeyed" /\ Done /\ idlen = 0) => verdict[2] = 0
 Sanity == (group = "hashfun" /\ Done) => verdict[1] /\ verdict[2] /\ verdict[3] /\ verdict[4]
 (* the statement of C16 for globals.  It does NOT hold of the code as written (the hash of  *)
 (* the full name is the only thing that separates two names with one truncated image):       *)
